@@ -554,8 +554,8 @@ Lemma apply_tspec_dets c t r : is_addcond t = false ->
   r_dets (apply_tspec c t r) = map (fun p => (fst p, det_step c t (snd p))) (r_dets r).
 Proof.
   destruct t; try discriminate; intros _; try reflexivity.
-  cbn [apply_tspec det_step afn_of tv_of it_of]. rewrite map_ext with (g := fun p => p); [rewrite map_id; reflexivity|].
-  intros [a b]; reflexivity.
+  all: cbn [apply_tspec det_step afn_of tv_of it_of r_dets]; rewrite map_ext with (g := fun p => p);
+    [rewrite map_id; reflexivity | intros [a b]; reflexivity].
 Qed.
 
 Lemma subst_same r : (forall i, r i = Some (Entry i)) -> forall d, subst r d = [d].
@@ -621,11 +621,10 @@ Proof.
         - rewrite andb_true_l in Hi. apply negb_true_iff in Hi. split; [apply hashes_exact, Hi | apply hashes_touch].
         - rewrite andb_true_r in Hi. apply negb_true_iff in Hi. split; [apply extract_exact, Hi | apply extract_touch]. }
       destruct t; try discriminate Ha; try discriminate Ef; try discriminate Et; try discriminate Ei.
-      * (* drop *) apply (walk_top_exact (fun _ => true)).
-        -- intros i _. apply gated_exact. reflexivity.
-        -- clear. induction d as [i | l land IH] using det_ind'; [reflexivity|]. cbn [forall_items].
-           apply forallb_forall. intros x Hx. rewrite Forall_forall in IH. apply IH, Hx.
-      * (* no-op *) symmetry. apply scoped_ident.
+      1: { (* drop *) apply (walk_top_exact (fun _ => true)).
+           - intros i _. apply gated_exact. reflexivity.
+           - apply forall_items_true. }
+      all: (* transformations of rule-level attributes only *) symmetry; apply scoped_ident.
 Qed.
 
 (* semantic agreement of one step on one detection (also for negated one-to-many mappings) *)
@@ -706,6 +705,13 @@ Proof.
     apply (Hok _ Hin).
 Qed.
 
+Lemma r_dets_mark_rule id r : r_dets (mark_rule id r) = r_dets r.
+Proof. destruct id; reflexivity. Qed.
+Lemma rdocs_of_mark_rule id r : rdocs_of (mark_rule id r) = rdocs_of r.
+Proof. unfold rdocs_of. rewrite r_dets_mark_rule. reflexivity. Qed.
+Lemma meanings_mark_rule asg id r : meanings asg (mark_rule id r) = meanings asg r.
+Proof. unfold meanings. rewrite r_dets_mark_rule. reflexivity. Qed.
+
 Definition item_step_ok (it : conds * tspec) (r : rule) : bool :=
   negb (c_rule (fst it)) || rule_exact_ok (fst it) (snd it) r.
 Fixpoint items_exact_ok (its : list (conds * tspec)) (r : rule) : bool :=
@@ -716,7 +722,7 @@ Fixpoint items_exact_ok (its : list (conds * tspec)) (r : rule) : bool :=
 Definition pitem_exact_ok (p : pitem) (r : rule) : bool :=
   match p with
   | PItem c t => item_step_ok (c, t) r
-  | PNest c items => negb (c_rule c) || items_exact_ok items r
+  | PNest c items => negb (c_rule c) || items_exact_ok items (mark_rule (c_id c) r)
   end.
 Fixpoint pipeline_exact_ok (ps : list pitem) (r : rule) : bool :=
   match ps with
@@ -727,7 +733,7 @@ Fixpoint pipeline_exact_ok (ps : list pitem) (r : rule) : bool :=
 Lemma item_exact it r : item_step_ok it r = true -> rdocs_of (apply_item it r) = rewrite_item it (rdocs_of r).
 Proof.
   unfold item_step_ok, apply_item, rewrite_item. destruct (c_rule (fst it)); [|reflexivity].
-  cbn [negb orb]. apply tspec_exact.
+  cbn [negb orb]. intros H. rewrite rdocs_of_mark_rule. apply tspec_exact, H.
 Qed.
 Lemma items_exact its : forall r, items_exact_ok its r = true ->
   rdocs_of (fold_left (fun r it => apply_item it r) its r) = fold_left (fun ds it => rewrite_item it ds) its (rdocs_of r).
@@ -739,7 +745,8 @@ Lemma pitem_exact p r : pitem_exact_ok p r = true -> rdocs_of (apply_pitem p r) 
 Proof.
   destruct p as [c t | c items]; cbn [pitem_exact_ok apply_pitem rewrite_pitem].
   - apply item_exact.
-  - destruct (c_rule c); [|reflexivity]. cbn [negb orb]. apply items_exact.
+  - destruct (c_rule c); [|reflexivity]. cbn [negb orb]. intros H.
+    rewrite (items_exact items _ H), rdocs_of_mark_rule. reflexivity.
 Qed.
 Theorem pipeline_exact ps : forall r, pipeline_exact_ok ps r = true ->
   rdocs_of (apply_pipeline ps r) = rewrite_pipeline ps (rdocs_of r).
@@ -767,7 +774,7 @@ Proof.
   destruct ps as [|[c t | c items] [|q ps]]; try (apply G; exact H).
   unfold pipeline_ok in H. unfold apply_pipeline, rewrite_pipeline. cbn [fold_left apply_pitem rewrite_pitem].
   unfold apply_item, rewrite_item. cbn [fst snd]. destruct (c_rule c).
-  - cbn [negb orb] in H. apply tspec_sem, H.
+  - cbn [negb orb] in H. rewrite meanings_mark_rule. apply tspec_sem, H.
   - symmetry. apply doc_meanings_of.
 Qed.
 
@@ -786,17 +793,22 @@ Proof.
 Qed.
 Lemma map_dets_id f r : (forall d, f d = d) -> map_dets f r = r.
 Proof.
-  intros H. destruct r as [ds c fs]. unfold map_dets. cbn [r_dets r_cond r_fields]. f_equal.
+  intros H. destruct r as [ds c fs ats]. unfold map_dets. cbn [r_dets r_cond r_fields r_attrs]. f_equal.
   induction ds as [|[n d] ds IH]; [reflexivity|]. cbn [map fst snd]. rewrite H, IH. reflexivity.
 Qed.
 Lemma marked_keep id im tr i : im i = false -> rep_list i (marked id (gated im tr) i) = [DI i].
 Proof. intros H. unfold marked, gated. rewrite H. reflexivity. Qed.
 
 (* a processing item whose detection item / field name conditions match no item *)
-Lemma identity_scope c t r : is_addcond t = false -> afn_of t = None ->
+Definition is_rule_level (t : tspec) : bool :=
+  match t with
+  | TChangeLogsource _ _ _ | TSetCustom _ _ | TSetState _ _ | TAddField _ | TRemoveField _ | TSetField _ => true
+  | _ => false
+  end.
+Lemma identity_scope c t r : is_addcond t = false -> is_rule_level t = false -> afn_of t = None ->
   (forall i, im_of c i = false) -> apply_tspec c t r = r.
 Proof.
-  intros Ha Hf Him.
+  intros Ha Hr Hf Him.
   assert (G : forall tr, map_dets (walk_top (marked (c_id c) (gated (im_of c) tr))) r = r).
   { intros tr. apply map_dets_id. apply walk_top_same. intros i. apply marked_keep, Him. }
   destruct t; try discriminate; cbn [apply_tspec]; unfold apply_values; try apply G; try reflexivity.
@@ -902,7 +914,7 @@ Proof.
 Qed.
 
 (* ---------- refutations (replayed against the real code by the correspondence corpus) ---------- *)
-Definition no_conds : conds := mkC None true [] false [] false.
+Definition no_conds : conds := mkC None true [] false [] false [] false.
 Definition asg_num (_ : option str) (a : aval) : bool := match a with ANum _ => true | _ => false end.
 Definition kwnum_rule : rule := mkR [([115], DD [DI (mkI None [V (ANum [49])] false false [])] true)] [115] [].
 Lemma keyword_number_refuted :
@@ -935,8 +947,8 @@ Qed.
 (* a later item scoped by processing_item_applied sees the marks of an earlier one also on the copies of a
    one-to-many mapping (fix ab135a8): case A; f -> [x, y] B; set_value Z if A applied *)
 Definition chain_rule : rule := mkR [([115], DD [DI (mkI (Some [102]) [V (AStr false [PStr [118]])] false false [])] true)] [115] [].
-Definition cA := mkC (Some [65]) true [] false [] false.
-Definition cC := mkC (Some [67]) true [] false [IApplied [65]] false.
+Definition cA := mkC (Some [65]) true [] false [] false [] false.
+Definition cC := mkC (Some [67]) true [] false [] false [IApplied [65]] false.
 Lemma chain_marks_example :
   pipeline_ok [PItem cA (TCase CUpper); PItem no_conds (TFieldMap [(Some [102], FMany [[120]; [121]])]);
                PItem cC (TSetValue (ANum [49]))] chain_rule = true /\
@@ -963,3 +975,23 @@ Lemma hashes_interleaved_example :
   = [([115], All [Any [Entry (mkI (Some [70; 77; 68; 53]) [V (AStr false [PStr [97]]); V (AStr false [PStr [99]])] false false []);
                        Entry (mkI (Some [70; 83; 72; 65; 49]) [V (AStr false [PStr [98]])] false false [])]])].
 Proof. vm_compute. reflexivity. Qed.
+
+(* ---------- rule-level attributes ---------- *)
+(* change_logsource replaces the log source by exactly the given attributes (omitted ones are cleared),
+   set_custom_attribute / set_state set one key; detections, condition and fields list are untouched *)
+Lemma change_logsource_exact c c0 p s r :
+  let r' := apply_tspec c (TChangeLogsource c0 p s) r in
+  a_logsource (r_attrs r') = (c0, (p, s)) /\ r_dets r' = r_dets r /\ r_cond r' = r_cond r /\ r_fields r' = r_fields r /\
+  a_custom (r_attrs r') = a_custom (r_attrs r) /\ a_state (r_attrs r') = a_state (r_attrs r).
+Proof. cbn. repeat split. Qed.
+(* a follower scoped by a logsource rule condition on an omitted attribute does not apply:
+   logsource {category: process_creation, product: windows}; change_logsource service: sysmon; condition product: windows *)
+Definition ls_rule : rule :=
+  mkRule [([115], DD [DI (mkI (Some [102]) [V (AStr false [PStr [118]])] false false [])] true)] [115] []
+         (mkA (Some [112; 99], (Some [119; 105; 110], None)) [] [] []).
+Definition c_win : conds := mkC (Some [70]) false [RLogsource None (Some [119; 105; 110]) None] false [] false [] false.
+Lemma change_logsource_follower_example :
+  rules_consistent [PItem no_conds (TChangeLogsource None None (Some [115; 121; 115])); PItem c_win (TPrefix [119; 46])] ls_rule = true /\
+  r_dets (apply_pipeline [PItem no_conds (TChangeLogsource None None (Some [115; 121; 115])); PItem c_win (TPrefix [119; 46])] ls_rule)
+  = r_dets ls_rule.
+Proof. split; vm_compute; reflexivity. Qed.
